@@ -29,6 +29,13 @@ def toUpper (c : Nat) : Nat := if c < 256 then toUpperLo c else Uni.toUpper c
 def encontrol (c : Nat) : Nat := (toUpper c) &&& 0x1f
 def enmeta (c : Nat) : Nat := c ||| 0x80
 
+/-- `simpleEscape`: the character a backslash followed by `c` stands for (one-letter escapes, escaped
+backslash and quotes), 0 otherwise -/
+def simpleEsc (c : Nat) : Nat :=
+  if c = 0x61 then 7 else if c = 0x62 then 8 else if c = 0x64 then 0x7f else if c = 0x65 then 0x1b
+  else if c = 0x66 then 12 else if c = 0x6e then 10 else if c = 0x72 then 13 else if c = 0x74 then 9
+  else if c = 0x76 then 11 else if c = bs ∨ c = 0x22 ∨ c = 0x27 then c else 0
+
 def escStep (r : List Nat) : List Nat × Nat :=
   let c1 := grab r 1; let c2 := grab r 2; let c3 := grab r 3
   let c4 := grab r 4; let c5 := grab r 5
@@ -51,8 +58,10 @@ def escStep (r : List Nat) : List Nat × Nat :=
   else if ((c1 = 0x43 ∧ c4 = 0x4d) ∨ (c1 = 0x4d ∧ c4 = 0x43)) ∧ c2 = 0x2d ∧ c3 = bs ∧ c5 = 0x2d then
     let c6 := grab r 6
     (if c6 ≠ 0 then [0x1b, encontrol c6] else [], 6)
+  else if c1 = 0x43 ∧ c2 = 0x2d ∧ c3 = bs ∧ simpleEsc c4 ≠ 0 then ([encontrol (simpleEsc c4)], 4)   -- repaired
   else if c1 = 0x43 ∧ c2 = 0x2d then
     (if c3 = 0x3f then [0x7f] else [encontrol c3], 3)
+  else if c1 = 0x4d ∧ c2 = 0x2d ∧ c3 = bs ∧ simpleEsc c4 ≠ 0 then ([enmeta (simpleEsc c4)], 4)      -- repaired
   else if c1 = 0x4d ∧ c2 = 0x2d then
     if c3 = 0 then ([0x1b], 2) else ([enmeta c3], 3)
   else ([c1], 1)
